@@ -623,6 +623,9 @@ class Samples(BaseSamples):
         sliced = super().__getitem__(idx)
         sliced.log_evidence = self.log_evidence
         sliced.log_evidence_error = self.log_evidence_error
+        # ... on both scales: __post_init__ recomputed these from the rows
+        sliced.evidence = self.evidence
+        sliced.evidence_error = self.evidence_error
 
         if self.log_w is not None:
             sliced.log_w = self.array_to_namespace(self.log_w[idx])
